@@ -53,7 +53,7 @@ class Z3Backend:
         from spec import vocab as V
 
         self.V = V
-        self.sorts = {"RS": V.RS, "Pred": smt.Ref, "Expr": smt.Ref, "Tag": smt.Tag, "TagSet": smt.TagSet, "Int": smt.IntS,
+        self.sorts = {"RS": V.RS, "Pred": smt.Ref, "Expr": smt.Ref, "Callable": smt.Ref, "Tag": smt.Tag, "TagSet": smt.TagSet, "Int": smt.IntS,
                       "OptInt": smt.OptInt, "Terms": V.SeqRef.sort, "Row": V.Row, "Bool": smt.BoolS}
 
     def var(self, name, kind):
@@ -81,6 +81,11 @@ class Z3Backend:
     def pand(self, p, q, r): return self.V.is_and(r, p, q)  # r denotes p AND q
     def tcat(self, a, b, c): return self.V.is_tcat(c, a, b)  # c = sort-term list "b's terms first, then a's not already present"
     def pequiv(self, p, q): return self.V.pequiv(p, q)
+    def dedup_key(self, K, X): return self.V.s_dedup_key(K, X)
+    def mapc(self, t, cl, X): return self.V.s_mapc(t, cl, X)
+    def filterc(self, cl, X): return self.V.s_filterc(cl, X)
+    def den_x(self, cl, e): return self.V.denotes_x(cl, e)
+    def den_p(self, cl, p): return self.V.denotes_p(cl, p)
     def tlen(self, ts): return self.V.SeqRef.info.len(ts)
     # ints / optints
     def i(self, n): return z3.IntVal(n)
@@ -426,3 +431,30 @@ def _join_laws():
 
 
 _join_laws()
+
+
+# ---- iteration engine
+@law("dedup-by-all-columns", "T2", "K:TagSet X:RS", lambda B, K, X: B.dedup_key(K, X))
+def _(B, K, X):
+    return B.and_(B.implies(B.eq(K, B.rcols(X)), B.eq(B.dedup_key(K, X), B.dedup(X))),
+                  B.le(B.rlen(B.dedup_key(K, X)), B.rlen(X)), B.eq(B.rcols(B.dedup_key(K, X)), B.rcols(X)))
+
+
+@law("callable-calc", "T1", "t:Tag cl:Callable e:Expr X:RS", lambda B, t, cl, e, X: (B.mapc(t, cl, X), B.den_x(cl, e)))
+def _(B, t, cl, e, X):
+    return B.implies(B.den_x(cl, e), B.eq(B.mapc(t, cl, X), B.calc(t, e, X)))
+
+
+@law("callable-filter", "T1", "cl:Callable p:Pred X:RS", lambda B, cl, p, X: (B.filterc(cl, X), B.den_p(cl, p)))
+def _(B, cl, p, X):
+    return B.implies(B.den_p(cl, p), B.eq(B.filterc(cl, X), B.filter(p, X)))
+
+
+@law("callable-calc-len", "L", "t:Tag cl:Callable X:RS", lambda B, t, cl, X: B.mapc(t, cl, X))
+def _(B, t, cl, X):
+    return B.and_(B.eq(B.rlen(B.mapc(t, cl, X)), B.rlen(X)), B.eq(B.rcols(B.mapc(t, cl, X)), B.sadd(B.rcols(X), t)))
+
+
+@law("callable-filter-len", "L", "cl:Callable X:RS", lambda B, cl, X: B.filterc(cl, X))
+def _(B, cl, X):
+    return B.and_(B.le(B.rlen(B.filterc(cl, X)), B.rlen(X)), B.eq(B.rcols(B.filterc(cl, X)), B.rcols(X)))
